@@ -201,6 +201,7 @@ func (n *constructorNode) Call(c containerStore) (err error) {
 	}
 
 	receiver := newStagingContainerWriter()
+	verifTraceEnter(c, "ctor", n)
 	results := c.invoker()(reflect.ValueOf(n.ctor), args)
 	if err = n.resultList.ExtractList(receiver, false /* decorating */, results); err != nil {
 		return errConstructorFailed{Func: n.location, Reason: err}
@@ -212,6 +213,7 @@ func (n *constructorNode) Call(c containerStore) (err error) {
 	// container.
 	receiver.Commit(n.s)
 	n.called = true
+	verifTraceCommit("ctor", n, n.resultList, results)
 	return nil
 }
 
